@@ -2,7 +2,7 @@
 
 SCALAR_ROOTS = [("Goldilocks", n) for n in
                 ["add", "sub", "mul", "inc", "dec", "neg", "square", "mulScalar", "toU64", "fromU64",
-                 "equal", "isZero", "isOne", "isNegone", "zero", "one", "negone"]]
+                 "equal", "isZero", "isOne", "isNegone", "zero", "one", "negone", "w", "shift"]]
 
 MODULES = [
     {"name": "Scalar", "ns": "Gen.Scalar",
